@@ -204,12 +204,21 @@ theorem empty_removed' (p : Policy) (r : DirRepo)
     (dirGC p true r).1.repoDir = false ∧ (dirGC p true r).1.live = false ∧ (dirGC p true r).2 = false := by
   obtain ⟨h1, h2, h3⟩ := hload
   obtain ⟨c1, c2, c3⟩ := hclean
+  have e1 : dirStep1 r = { r with uploadsDir := false } := by
+    unfold dirStep1; rw [if_pos hs, rmUploads_ok r hs c1]
+  have hlf : loadFails (dirStep1 r) = false := by
+    rw [e1]; unfold loadFails; simp [h1, h2, h3]
+  have e2 : dirCollect p (dirStep1 r) =
+      { r with uploadsDir := false, index := (gc p r.index r.blobs).index, blobs := gcBlobs p r.index r.blobs } := by
+    unfold dirCollect; rw [hlf, e1]; rfl
+  have e3 : dirPrune true (dirCollect p (dirStep1 r)) = pruneEmpty (dirCollect p (dirStep1 r)) := by
+    unfold dirPrune
+    rw [e2]
+    simp [hidx, hs]
   unfold dirGC
-  simp only []
-  rw [if_pos hs, rmUploads_ok r hs c1]
-  simp only [h1, h2, h3, Bool.not_true, Bool.or_false, Bool.false_eq_true, if_false, hidx, hbl, List.isEmpty_nil,
-    Bool.and_self, Bool.true_and, hs, decide_true, if_true, and_true]
-  exact pruneEmpty_clean _ h1 hs c1 c2 c3 rfl
+  simp only [hlf, and_true]
+  rw [e3, e2]
+  exact pruneEmpty_clean _ h1 hs c1 c2 c3 hbl
 
 /-! ## a repository that holds blobs is not taken apart -/
 
@@ -278,6 +287,40 @@ theorem rmBlobs_fails {b : Blob} {lay : Bool} (x : DirRepo) (h : HoldsBlob b lay
     | cons _ _ => rfl
   simp [h4, this]
 
+theorem dirStep1_holds {b : Blob} {lay : Bool} (x : DirRepo) (h : HoldsBlob b lay x) : HoldsBlob b lay (dirStep1 x) := by
+  unfold dirStep1
+  split
+  · exact rmUploads_holds x h
+  · exact h
+
+theorem dirStep1_frame (x : DirRepo) : (dirStep1 x).corrupt = x.corrupt ∧ (dirStep1 x).index = x.index ∧ (dirStep1 x).blobs = x.blobs := by
+  unfold dirStep1 rmUploads
+  split
+  · split
+    · exact ⟨rfl, rfl, rfl⟩
+    · split <;> exact ⟨rfl, rfl, rfl⟩
+  · exact ⟨rfl, rfl, rfl⟩
+
+theorem pruneEmpty_holds {b : Blob} {lay : Bool} (x : DirRepo) (h : HoldsBlob b lay x) : HoldsBlob b lay (pruneEmpty x) := by
+  unfold pruneEmpty
+  rw [if_neg (by simp [h.1])]
+  have hstop := rmSeq_stop (HoldsBlob b lay) rmBlobs [rmIndexFile, rmLayoutFile, rmRepoDir]
+    (fun y hy => rmBlobs_fails y hy) ([rmUploads] ++ x.algos.map rmAlgo) (by
+      intro f hf y hy
+      rcases List.mem_append.mp hf with hf1 | hf1
+      · simp only [List.mem_singleton] at hf1; subst hf1; exact rmUploads_holds y hy
+      · obtain ⟨a, _, rfl⟩ := List.mem_map.mp hf1; exact rmAlgo_holds a y hy) x h
+  have hlist : [rmUploads] ++ List.map rmAlgo x.algos ++ [rmBlobs, rmIndexFile, rmLayoutFile, rmRepoDir] =
+      ([rmUploads] ++ List.map rmAlgo x.algos) ++ rmBlobs :: [rmIndexFile, rmLayoutFile, rmRepoDir] := rfl
+  rw [hlist]
+  obtain ⟨s1, s2⟩ := hstop
+  cases hres : rmSeq (([rmUploads] ++ List.map rmAlgo x.algos) ++ rmBlobs :: [rmIndexFile, rmLayoutFile, rmRepoDir]) x with
+  | mk ok r' =>
+    rw [hres] at s1 s2
+    simp only [] at s1 s2
+    subst s1
+    exact s2
+
 /-- C06/C05 (F5 repaired): a repository in which the collection leaves a blob keeps its `index.json` and `oci-layout`
     (and the blob), even when `EmptyRepo` is set and the index has no entry -/
 theorem blobs_keep_layout' (p : Policy) (e : Bool) (r : DirRepo)
@@ -287,40 +330,20 @@ theorem blobs_keep_layout' (p : Policy) (e : Bool) (r : DirRepo)
   obtain ⟨h1, h2, h3⟩ := hload
   have hbs : b ∈ r.blobs := (List.mem_filter.mp hb).1
   have h0 : HoldsBlob b r.layoutFile r := ⟨h1, h2, rfl, hbd, hbs, halg b hbs⟩
-  unfold dirGC
+  have hs1 := dirStep1_holds r h0
+  obtain ⟨f1, f2, f3⟩ := dirStep1_frame r
+  have hlf : loadFails (dirStep1 r) = false := by
+    unfold loadFails; simp [hs1.1, hs1.2.1, f1, h3]
+  have hc : HoldsBlob b r.layoutFile (dirCollect p (dirStep1 r)) := by
+    unfold dirCollect
+    rw [hlf]
+    obtain ⟨q1, q2, q3, q4, _, q6⟩ := hs1
+    refine ⟨q1, q2, q3, q4, ?_, q6⟩
+    show b ∈ gcBlobs p (dirStep1 r).index (dirStep1 r).blobs
+    rw [f2, f3]; exact hb
+  unfold dirGC dirPrune
   simp only []
-  generalize hq : (if r.sessions = 0 then (rmUploads r).2 else r) = r1
-  have hr1 : HoldsBlob b r.layoutFile r1 ∧ r1.corrupt = false ∧ r1.index = r.index ∧ r1.blobs = r.blobs := by
-    rw [← hq]
-    split
-    · refine ⟨rmUploads_holds r h0, ?_, ?_, ?_⟩ <;> (unfold rmUploads; split <;> (try split) <;> simp [h3])
-    · exact ⟨h0, h3, rfl, rfl⟩
-  obtain ⟨⟨q1, q2, q3, q4, q5, q6⟩, q7, q8, q9⟩ := hr1
-  simp only [q1, q2, q7, Bool.not_true, Bool.or_false, Bool.false_eq_true, if_false, q8, q9]
-  have h2' : HoldsBlob b r.layoutFile { r1 with index := (gc p r.index r.blobs).index, blobs := gcBlobs p r.index r.blobs } :=
-    ⟨q1, q2, q3, q4, hb, q6⟩
   split
-  · unfold pruneEmpty
-    rw [if_neg (by simp [q1])]
-    have hstop := rmSeq_stop (HoldsBlob b r.layoutFile) rmBlobs [rmIndexFile, rmLayoutFile, rmRepoDir]
-      (fun x hx => rmBlobs_fails x hx) ([rmUploads] ++ r1.algos.map rmAlgo) (by
-        intro f hf x hx
-        rcases List.mem_append.mp hf with hf1 | hf1
-        · simp only [List.mem_singleton] at hf1; subst hf1; exact rmUploads_holds x hx
-        · obtain ⟨a, _, rfl⟩ := List.mem_map.mp hf1; exact rmAlgo_holds a x hx) _ h2'
-    have hlist : [rmUploads] ++ List.map rmAlgo r1.algos ++ [rmBlobs, rmIndexFile, rmLayoutFile, rmRepoDir] =
-        ([rmUploads] ++ List.map rmAlgo r1.algos) ++ rmBlobs :: [rmIndexFile, rmLayoutFile, rmRepoDir] := rfl
-    show HoldsBlob b r.layoutFile (match rmSeq ([rmUploads] ++ List.map rmAlgo r1.algos ++ [rmBlobs, rmIndexFile, rmLayoutFile, rmRepoDir])
-      { r1 with index := (gc p r.index r.blobs).index, blobs := gcBlobs p r.index r.blobs } with
-      | (true, r') => { r' with live := false } | (false, r') => r')
-    rw [hlist]
-    obtain ⟨s1, s2⟩ := hstop
-    cases hres : rmSeq (([rmUploads] ++ List.map rmAlgo r1.algos) ++ rmBlobs :: [rmIndexFile, rmLayoutFile, rmRepoDir])
-      { r1 with index := (gc p r.index r.blobs).index, blobs := gcBlobs p r.index r.blobs } with
-    | mk ok r' =>
-      rw [hres] at s1 s2
-      simp only [] at s1 s2
-      subst s1
-      exact s2
-  · exact h2'
+  · exact pruneEmpty_holds _ hc
+  · exact hc
 end Ixd
